@@ -14,6 +14,7 @@ import (
 func init() {
 	reg("R15", func(c *core.Ctx) { r15MapOrder(c, "R15", "snap.SnapPolygon", 9) })
 	reg("R15p", func(c *core.Ctx) { r15MapOrder(c, "R15p", "processing.ProcessFeatures", 6) })
+	reg("R15j", func(c *core.Ctx) { r15MapOrder(c, "R15j", "tms20.TileMatrixSet.MarshalJSON", 1) })
 	reg("R16", r16NoNondeterminism)
 }
 
@@ -488,6 +489,7 @@ func (oc *orderChecker) checkLoop(l *loopInfo) []string {
 		}
 	}
 	var accumulators []*ssa.Phi
+	cells := map[*ssa.Alloc]bool{}
 	// loop-carried SSA values
 	for _, in := range l.header.Instrs {
 		phi, ok := in.(*ssa.Phi)
@@ -528,6 +530,10 @@ func (oc *orderChecker) checkLoop(l *loopInfo) []string {
 				}
 			case *ssa.Store:
 				if cl := oc.class(l, x.Addr, map[ssa.Value]bool{}); cl == scShared {
+					if a := oc.accumulatorCell(l, x); a != nil {
+						cells[a] = true
+						continue
+					}
 					oc.fail(l, in, "store to memory shared between iterations ("+x.Addr.String()+")")
 				}
 			case *ssa.Send:
@@ -572,6 +578,9 @@ func (oc *orderChecker) checkLoop(l *loopInfo) []string {
 	// collected slices must only be used in order-insensitive ways afterwards
 	for _, acc := range accumulators {
 		oc.checkUnorderedUses(acc, l, fmt.Sprintf("slice %s collected in map/unordered iteration order @%s", acc.Comment, oc.c.P.Pos(l.pos)))
+	}
+	for cell := range cells {
+		oc.checkUnorderedCell(cell, l, fmt.Sprintf("slice %s collected in map/unordered iteration order @%s", cell.Comment, oc.c.P.Pos(l.pos)))
 	}
 	return oc.reasons
 }
@@ -667,7 +676,7 @@ func (oc *orderChecker) checkCall(l *loopInfo, x *ssa.Call) {
 		case "append":
 			// writing into spare capacity of a shared slice; accumulators are handled through the header phi
 			if cl := oc.class(l, x.Call.Args[0], map[ssa.Value]bool{}); cl == scShared {
-				if !oc.isAccumulatorBase(l, x.Call.Args[0]) {
+				if !oc.isAccumulatorBase(l, x.Call.Args[0]) && !oc.isCellLoad(l, x.Call.Args[0]) {
 					oc.fail(l, x, "append to a slice shared between iterations")
 				}
 			}
@@ -757,6 +766,126 @@ func (oc *orderChecker) checkCall(l *loopInfo, x *ssa.Call) {
 	}
 }
 
+// accumulatorCell: the store is `cell = append(cell, …)` on a local variable cell declared outside the loop
+// (a slice variable that lives in memory because a closure captures it).
+func (oc *orderChecker) accumulatorCell(l *loopInfo, st *ssa.Store) *ssa.Alloc {
+	a, ok := st.Addr.(*ssa.Alloc)
+	if !ok || l.inLoop(a) {
+		return nil
+	}
+	call, ok := st.Val.(*ssa.Call)
+	if !ok {
+		return nil
+	}
+	if b, isB := call.Call.Value.(*ssa.Builtin); !isB || b.Name() != "append" {
+		return nil
+	}
+	if !oc.isCellLoadOf(call.Call.Args[0], a) {
+		return nil
+	}
+	// every store to the cell inside the loop must have this shape
+	for _, r := range *a.Referrers() {
+		if s2, ok := r.(*ssa.Store); ok && s2 != st && l.inLoop(s2.Val) {
+			c2, ok := s2.Val.(*ssa.Call)
+			if !ok || !oc.isCellLoadOf(c2.Call.Args[0], a) {
+				return nil
+			}
+		}
+	}
+	return a
+}
+
+func (oc *orderChecker) isCellLoadOf(v ssa.Value, a *ssa.Alloc) bool {
+	u, ok := v.(*ssa.UnOp)
+	return ok && u.Op == token.MUL && u.X == ssa.Value(a)
+}
+
+func (oc *orderChecker) isCellLoad(l *loopInfo, v ssa.Value) bool {
+	u, ok := v.(*ssa.UnOp)
+	if !ok || u.Op != token.MUL {
+		return false
+	}
+	a, ok := u.X.(*ssa.Alloc)
+	if !ok || l.inLoop(a) {
+		return false
+	}
+	for _, r := range *a.Referrers() {
+		if st, ok := r.(*ssa.Store); ok && l.inLoop(st.Val) {
+			return oc.accumulatorCell(l, st) == a
+		}
+	}
+	return false
+}
+
+// checkUnorderedCell: like checkUnorderedUses for a slice variable that lives in a memory cell.
+func (oc *orderChecker) checkUnorderedCell(a *ssa.Alloc, producer *loopInfo, what string) {
+	var sortCall *ssa.Call
+	isSort := func(id string) bool {
+		return id == "sort.Ints" || id == "sort.Strings" || id == "sort.Float64s" || id == "sort.Slice" || id == "sort.SliceStable" || strings.HasPrefix(id, "slices.Sort") || strings.HasPrefix(id, "golang.org/x/exp/slices.Sort")
+	}
+	var loads []*ssa.UnOp
+	for _, r := range *a.Referrers() {
+		if u, ok := r.(*ssa.UnOp); ok && u.Op == token.MUL {
+			loads = append(loads, u)
+			for _, rr := range *u.Referrers() {
+				v := rr
+				if mi, ok := rr.(*ssa.MakeInterface); ok {
+					for _, r3 := range *mi.Referrers() {
+						v = r3
+					}
+				}
+				if call, ok := v.(*ssa.Call); ok && isSort(core.StaticCalleeID(call)) {
+					sortCall = call
+				}
+			}
+		}
+	}
+	for _, r := range *a.Referrers() {
+		if producer.fn == r.Parent() && (producer.blocks[r.Block()] || r.Block() == producer.header) {
+			continue
+		}
+		switch x := r.(type) {
+		case *ssa.Store:
+			// initialisation before the loop
+		case *ssa.UnOp:
+			if sortCall != nil && (core.Dominates(sortCall, x) || feeds(x, sortCall)) {
+				continue
+			}
+			oc.checkUnorderedUses(x, producer, what)
+		case *ssa.MakeClosure:
+			// the comparison function handed to the sort reads the slice by position: part of sorting
+			if sortCall != nil {
+				isLess := false
+				for _, arg := range sortCall.Call.Args {
+					if arg == ssa.Value(x) {
+						isLess = true
+					}
+				}
+				if isLess {
+					continue
+				}
+			}
+			oc.reasons = append(oc.reasons, fmt.Sprintf("%s: captured by a closure that is not the sort's comparison function @%s", what, oc.c.P.Pos(x.Pos())))
+		case *ssa.DebugRef:
+		default:
+			oc.reasons = append(oc.reasons, fmt.Sprintf("%s: unclassified use of the variable cell %T @%s", what, r, oc.c.P.Pos(r.Pos())))
+		}
+	}
+}
+
+// feeds: v (possibly boxed into an interface) is an argument of call.
+func feeds(v ssa.Value, call *ssa.Call) bool {
+	for _, a := range call.Call.Args {
+		if a == v {
+			return true
+		}
+		if mi, ok := a.(*ssa.MakeInterface); ok && mi.X == v {
+			return true
+		}
+	}
+	return false
+}
+
 func (oc *orderChecker) isAccumulatorBase(l *loopInfo, v ssa.Value) bool {
 	if p, ok := v.(*ssa.Phi); ok && p.Block() == l.header {
 		return oc.carriedKind(l, p) == "append"
@@ -814,7 +943,7 @@ func (oc *orderChecker) checkUnorderedUses(v ssa.Value, producer *loopInfo, what
 		for _, r := range *refs {
 			if call, ok := r.(*ssa.Call); ok {
 				id := core.StaticCalleeID(call)
-				if (id == "sort.Ints" || id == "sort.Strings" || id == "sort.Float64s" || strings.HasPrefix(id, "slices.Sort") || strings.HasPrefix(id, "golang.org/x/exp/slices.Sort")) && len(call.Call.Args) >= 1 && call.Call.Args[0] == v {
+				if (id == "sort.Ints" || id == "sort.Strings" || id == "sort.Float64s" || id == "sort.Slice" || id == "sort.SliceStable" || strings.HasPrefix(id, "slices.Sort") || strings.HasPrefix(id, "golang.org/x/exp/slices.Sort")) && len(call.Call.Args) >= 1 && call.Call.Args[0] == v {
 					sortCall = call
 				}
 			}
@@ -1055,8 +1184,41 @@ func r15MapOrder(c *core.Ctx, R, rootName string, floor int) {
 			}
 		}
 	}
+	r15Canary(c, R)
 	c.Note(R, "%d non-stdlib functions on the call graph below %s (%d in the module); %d map/unordered loops and %d unordered producers checked", len(fns), rootName, nmod, oc.loopsN, oc.prodN)
 	c.FloorPrefix(R, "iterations-commute/", floor)
+}
+
+// r15Canary: the loop checker must flag the seeded order-dependent loops of
+// canary/maporder and accept the order-independent ones, on every run.
+func r15Canary(c *core.Ctx, R string) {
+	funcs, idx, err := core.LoadCanary("maporder")
+	if err != nil {
+		c.Bad(R, "canary/maporder", token.NoPos, "cannot load canary: "+err.Error())
+		return
+	}
+	oc := &orderChecker{c: c, R: R + "-canary", ea: newEffAnalysisIdx(c.P, idx), done: map[string]bool{}, injCache: map[ssa.Value]bool{}}
+	flagged := map[string]bool{}
+	seenFns := 0
+	for _, f := range funcs {
+		for _, b := range f.Blocks {
+			for _, in := range b.Instrs {
+				rg, ok := in.(*ssa.Range)
+				if !ok {
+					continue
+				}
+				if _, isMap := rg.X.Type().Underlying().(*types.Map); !isMap {
+					continue
+				}
+				seenFns++
+				if l := mapLoopOf(rg); l != nil && len(oc.checkLoop(l)) > 0 {
+					flagged[f.Name()] = true
+				}
+			}
+		}
+	}
+	ok := flagged["BadFirst"] && flagged["BadCollect"] && flagged["BadLastWriter"] && flagged["BadCarried"] && !flagged["GoodSorted"] && !flagged["GoodPerKey"] && seenFns == 6
+	c.Check(R, "canary/maporder", token.NoPos, ok, "the loop checker flags the four order-dependent canary loops and accepts the two order-independent ones", fmt.Sprintf("canary verdicts wrong: flagged=%v over %d loops", flagged, seenFns))
 }
 
 func rangeName(x *ssa.Range) string {
